@@ -163,7 +163,10 @@ def run(chk, replay=None):
 
                     def fill(cmd, fmt=fmt, resp=resp):
                         if fmt and not fmt.startswith("#") and len(cmd.datain):
-                            b = datafmt.GEN[fmt](rng, 1) if fmt.startswith("ModeSense") else datafmt.GEN[fmt](rng)
+                            for _try in range(30):      # a response that fits the allocation (a cut one may not be decodable)
+                                b = datafmt.GEN[fmt](rng, 1) if fmt.startswith("ModeSense") else datafmt.GEN[fmt](rng)
+                                if len(b) <= len(cmd.datain):
+                                    break
                             b = (b + bytearray(len(cmd.datain)))[:len(cmd.datain)]
                             cmd.datain[:] = b
                             resp["bytes"] = bytes(b)
@@ -183,7 +186,13 @@ def run(chk, replay=None):
                             except BaseException:
                                 pass
                     dev = RecDevice(ec.spc, None)
-                    facade = SCSI(dev, bs)
+                    if rng.random() < 0.3:
+                        # the facade served another device before and is re-aimed at this one (s(dev)): block size
+                        # and everything else the caller configured stay as they were
+                        facade = SCSI(RecDevice(ec.spc, None), bs)
+                        facade(dev)
+                    else:
+                        facade = SCSI(dev, bs)
                     dev.opcodes = table
                     dev.calls = []
                     dev.fill = fill
